@@ -1,8 +1,670 @@
 /-
   Helper lemmas for the spec language (C03).
+
+  Main result: `buildspec_meaning_proof` — for every format `GrammarOK` admits, the
+  fix / mask / extractor computation of `buildspec` (as coded) equals the documented meaning
+  (`refCells`, `refFields`).
+
+  Route:
+  1. a processing-order form of the reference (`refCells_processed`, `refFields_processed`):
+     cells are `P.flatMap cl`, fields are a left-to-right walk `walkX` over `P = processed a`
+     with a running offset;
+  2. a loop invariant for `bloop` over `P` (`bloop_inv`);
+  3. the facts `GrammarOK` provides (`sumE_processed`, `ovlP_processed`, ...), and the conclusion.
 -/
 import Amoco.Model.Spec
 
 namespace Amoco.Spec
+
+/-! ## effective widths -/
+
+/-- sum of effective widths (a `(*)` directive counts `sw`). -/
+def sumE (sw : Nat) : List Item → Nat
+  | [] => 0
+  | it :: rest => it.widthE sw + sumE sw rest
+
+theorem sumE_append (sw : Nat) (l1 l2 : List Item) :
+    sumE sw (l1 ++ l2) = sumE sw l1 + sumE sw l2 := by
+  induction l1 with
+  | nil => simp [sumE]
+  | cons it rest ih => simp only [List.cons_append, sumE, ih]; omega
+
+theorem sumE_reverse (sw : Nat) (l : List Item) : sumE sw l.reverse = sumE sw l := by
+  induction l with
+  | nil => rfl
+  | cons it rest ih => simp only [List.reverse_cons, sumE_append, sumE, ih]; omega
+
+theorem width_of_isStar {it : Item} (h : it.isStar = true) : it.width = 0 := by
+  cases it with
+  | field opt sym loc => cases opt <;> cases loc <;> simp_all [Item.isStar, Item.width]
+  | _ => simp [Item.isStar] at h
+
+theorem widthE_zero (it : Item) : it.widthE 0 = it.width := by
+  unfold Item.widthE
+  split
+  · next h => exact (width_of_isStar h).symm
+  · rfl
+
+theorem sumWidth_eq_sumE (l : List Item) : sumWidth l = sumE 0 l := by
+  unfold sumWidth
+  induction l with
+  | nil => rfl
+  | cons it rest ih => simp only [List.map_cons, List.foldr_cons, sumE, widthE_zero, ih]
+
+theorem starLast_tail {it : Item} {rest : List Item} (h : starLast (it :: rest) = true) :
+    starLast rest = true := by
+  cases rest with
+  | nil => rfl
+  | cons x xs => simp only [starLast, Bool.and_eq_true] at h; exact h.2
+
+theorem starLast_head {it : Item} {rest : List Item} (h : starLast (it :: rest) = true)
+    (hs : it.isStar = true) : rest = [] := by
+  cases rest with
+  | nil => rfl
+  | cons x xs => simp [starLast, hs] at h
+
+/-- with the star last, the effective total is the plain total plus (once) the star's share. -/
+theorem sumE_starLast (sw : Nat) : ∀ l : List Item, starLast l = true →
+    sumE sw l = sumE 0 l + (if l.any Item.isStar then sw else 0)
+  | [], _ => rfl
+  | it :: rest, h => by
+    have ih := sumE_starLast sw rest (starLast_tail h)
+    by_cases hs : it.isStar = true
+    · have hr := starLast_head h hs
+      subst hr
+      simp [sumE, Item.widthE, hs]
+    · simp only [Bool.not_eq_true] at hs
+      simp only [sumE, Item.widthE, hs, List.any_cons, Bool.false_or, ih]
+      simp
+      omega
+
+theorem starSize_starLast : ∀ l : List Item, starLast l = true → starSize l = sumE 0 l
+  | [], _ => rfl
+  | it :: rest, h => by
+    have ih := starSize_starLast rest (starLast_tail h)
+    by_cases hs : it.isStar = true
+    · have hr := starLast_head h hs
+      subst hr
+      simp [starSize, sumE, Item.widthE, hs]
+    · simp only [Bool.not_eq_true] at hs
+      simp [starSize, sumE, Item.widthE, hs, ih]
+
+/-! ## cells, bit level -/
+
+/-- documented cells of one item (ascending bit index), the star taking `sw` free cells. -/
+def cl (sw : Nat) (it : Item) : List Cell :=
+  if it.isStar then List.replicate sw .free else it.cellsLsb
+
+theorem cellsFix_append (xs ys : List Cell) :
+    cellsFix (xs ++ ys) = cellsFix xs + 2 ^ xs.length * cellsFix ys := by
+  induction xs with
+  | nil => simp [cellsFix]
+  | cons c cs ih =>
+    simp only [List.cons_append, cellsFix, ih, List.length_cons, Nat.pow_succ]
+    rw [Nat.mul_add, Nat.mul_comm (2 ^ cs.length) 2, Nat.mul_assoc]
+    omega
+
+theorem cellsMask_append (xs ys : List Cell) :
+    cellsMask (xs ++ ys) = cellsMask xs + 2 ^ xs.length * cellsMask ys := by
+  induction xs with
+  | nil => simp [cellsMask]
+  | cons c cs ih =>
+    simp only [List.cons_append, cellsMask, ih, List.length_cons, Nat.pow_succ]
+    rw [Nat.mul_add, Nat.mul_comm (2 ^ cs.length) 2, Nat.mul_assoc]
+    omega
+
+theorem cellsFix_lt (xs : List Cell) : cellsFix xs < 2 ^ xs.length := by
+  induction xs with
+  | nil => simp [cellsFix]
+  | cons c cs ih =>
+    simp only [cellsFix, List.length_cons, Nat.pow_succ]
+    split <;> omega
+
+theorem cellsMask_lt (xs : List Cell) : cellsMask xs < 2 ^ xs.length := by
+  induction xs with
+  | nil => simp [cellsMask]
+  | cons c cs ih =>
+    simp only [cellsMask, List.length_cons, Nat.pow_succ]
+    split <;> omega
+
+theorem cellsFix_replicate_free (n : Nat) : cellsFix (List.replicate n .free) = 0 := by
+  induction n with
+  | zero => rfl
+  | succ n ih => simp [List.replicate_succ, cellsFix, ih]
+
+theorem cellsMask_replicate_free (n : Nat) : cellsMask (List.replicate n .free) = 0 := by
+  induction n with
+  | zero => rfl
+  | succ n ih => simp [List.replicate_succ, cellsMask, ih]
+
+/-- `|||` of a value shifted above a smaller one is `+`. -/
+theorem lor_shiftLeft_of_lt {a i : Nat} (h : a < 2 ^ i) (x : Nat) :
+    a ||| (x <<< i) = a + 2 ^ i * x := by
+  rw [Nat.or_comm, ← Nat.shiftLeft_add_eq_or_of_lt h, Nat.shiftLeft_eq]
+  rw [Nat.mul_comm]; omega
+
+def byteCells (v k : Nat) : List Cell :=
+  (List.range k).map (fun j => if v.testBit j then Cell.one else Cell.zero)
+
+theorem byteCells_length (v k : Nat) : (byteCells v k).length = k := by
+  simp [byteCells]
+
+theorem mod_two_pow_succ' (v k : Nat) :
+    v % 2 ^ (k + 1) = v % 2 ^ k + 2 ^ k * (if v.testBit k then 1 else 0) := by
+  rw [Nat.testBit_eq_decide_div_mod_eq]
+  have h1 : v % 2 ^ (k + 1) = v % 2 ^ k + 2 ^ k * (v / 2 ^ k % 2) := by
+    rw [Nat.pow_succ, Nat.mod_mul]
+  rw [h1]
+  have : v / 2 ^ k % 2 = 0 ∨ v / 2 ^ k % 2 = 1 := by omega
+  rcases this with h | h <;> simp [h]
+
+theorem cellsFix_byteCells (v : Nat) : ∀ k, cellsFix (byteCells v k) = v % 2 ^ k
+  | 0 => by simp [byteCells, cellsFix, Nat.mod_one]
+  | k + 1 => by
+    have ih := cellsFix_byteCells v k
+    have hl := byteCells_length v k
+    unfold byteCells at ih hl ⊢
+    rw [List.range_succ, List.map_append, cellsFix_append, ih, hl, mod_two_pow_succ']
+    by_cases hb : v.testBit k <;> simp [hb, cellsFix]
+
+theorem cellsMask_byteCells (v : Nat) : ∀ k, cellsMask (byteCells v k) = 2 ^ k - 1
+  | 0 => by simp [byteCells, cellsMask]
+  | k + 1 => by
+    have ih := cellsMask_byteCells v k
+    have hl := byteCells_length v k
+    unfold byteCells at ih hl ⊢
+    rw [List.range_succ, List.map_append, cellsMask_append, ih, hl]
+    have hp : 0 < 2 ^ k := Nat.two_pow_pos k
+    have hc : cellsMask [if v.testBit k then Cell.one else Cell.zero] = 1 := by
+      by_cases hb : v.testBit k <;> simp [hb, cellsMask]
+    simp only [List.map_cons, List.map_nil, hc, Nat.pow_succ]
+    omega
+
+theorem cl_length (sw : Nat) (it : Item) : (cl sw it).length = it.widthE sw := by
+  unfold cl Item.widthE
+  split
+  · simp
+  · next h =>
+    cases it with
+    | skip => rfl
+    | bit b => cases b <;> rfl
+    | byte v => simp [Item.cellsLsb, Item.width]
+    | field opt sym loc =>
+      cases opt <;> cases loc <;> simp_all [Item.cellsLsb, Item.width, Item.isStar]
+
+/-! ## processing-order form of the reference -/
+
+theorem refCells_processed (a : Ast) :
+    refCells a = (processed a).flatMap (cl (starWidth a)) := by
+  unfold refCells processed starWidth
+  cases a.dir with
+  | lsb => rfl
+  | msb =>
+    show (List.flatMap (fun it => (cl _ it).reverse) a.items).reverse = _
+    rw [List.reverse_flatMap]
+    congr 1
+    funext it
+    simp
+
+/-- the extractor the documentation gives an item that starts at offset `off` in processing order. -/
+def extOf (go : Bool) (off : Nat) : Item → List Ext
+  | .field opt sym (.len n) =>
+    if opt == .ovl then
+      (if go then [⟨opt == .attr, sym, kindOf opt, off - n, some off, go⟩]
+       else [⟨opt == .attr, sym, kindOf opt, off, some (off + n), go⟩])
+    else [⟨opt == .attr, sym, kindOf opt, off, some (off + n), go⟩]
+  | .field opt sym .star => [⟨opt == .attr, sym, kindOf opt, off, none, go⟩]
+  | _ => []
+
+/-- documented fields as a left-to-right walk over the processed items. -/
+def walkX (go : Bool) (sw : Nat) : List Item → Nat → List Ext
+  | [], _ => []
+  | it :: rest, off => extOf go off it ++ walkX go sw rest (off + it.widthE sw)
+
+theorem walkX_append (go : Bool) (sw : Nat) (l1 l2 : List Item) (off : Nat) :
+    walkX go sw (l1 ++ l2) off = walkX go sw l1 off ++ walkX go sw l2 (off + sumE sw l1) := by
+  induction l1 generalizing off with
+  | nil => simp [walkX, sumE]
+  | cons it rest ih =>
+    simp only [List.cons_append, walkX, ih, sumE, List.append_assoc, Nat.add_assoc]
+
+theorem filterMap_cons_toList {α β : Type} (f : α → Option β) (x : α) (xs : List α) :
+    (x :: xs).filterMap f = (f x).toList ++ xs.filterMap f := by
+  rw [List.filterMap_cons]
+  cases f x <;> rfl
+
+theorem refField_lsb (T sw : Nat) (it : Item) (p : Nat) :
+    (refField .lsb T sw it p).toList = (extOf true p it).map Ext.toRField := by
+  cases it with
+  | field opt sym loc =>
+    cases opt <;> cases loc <;> simp [refField, extOf, Ext.toRField]
+  | _ => simp [refField, extOf]
+
+theorem refField_msb (T sw : Nat) (it : Item) (p : Nat) (h : p + it.widthE sw ≤ T) :
+    (refField .msb T sw it p).toList =
+      (extOf false (T - p - it.widthE sw) it).map Ext.toRField := by
+  cases it with
+  | field opt sym loc =>
+    cases opt <;> cases loc <;>
+      simp [refField, extOf, Ext.toRField, Item.widthE, Item.isStar, Item.width] at h ⊢ <;> omega
+  | _ => simp [refField, extOf]
+
+theorem refFields_lsb_walk (T sw : Nat) : ∀ (ws : List Item) (p : Nat),
+    (prefixWidths sw ws p).filterMap (fun (x : Item × Nat) => refField .lsb T sw x.1 x.2) =
+      (walkX true sw ws p).map Ext.toRField
+  | [], _ => rfl
+  | it :: rest, p => by
+    rw [prefixWidths, filterMap_cons_toList, walkX, List.map_append,
+      refFields_lsb_walk T sw rest, refField_lsb]
+
+theorem toList_reverse {β : Type} (o : Option β) : o.toList.reverse = o.toList := by
+  cases o <;> rfl
+
+theorem refFields_msb_walk (T sw : Nat) : ∀ (ws : List Item) (p : Nat), p + sumE sw ws ≤ T →
+    ((prefixWidths sw ws p).filterMap (fun (x : Item × Nat) => refField .msb T sw x.1 x.2)).reverse =
+      (walkX false sw ws.reverse (T - p - sumE sw ws)).map Ext.toRField
+  | [], _, _ => rfl
+  | it :: rest, p, h => by
+    simp only [sumE] at h
+    have ih := refFields_msb_walk T sw rest (p + it.widthE sw) (by omega)
+    rw [prefixWidths, filterMap_cons_toList, List.reverse_append, ih, List.reverse_cons,
+      walkX_append, List.map_append, sumE_reverse, toList_reverse]
+    congr 1
+    · simp only [sumE]; congr 2; omega
+    · simp only [walkX, List.append_nil, sumE]
+      rw [refField_msb T sw it p (by omega)]
+      have : T - p - (it.widthE sw + sumE sw rest) + sumE sw rest = T - p - it.widthE sw := by omega
+      rw [this]
+
+theorem refFields_processed (a : Ast) (hT : sumE (starWidth a) a.items = bitSize a) :
+    refFields a =
+      (walkX (a.dir == .lsb) (starWidth a) (processed a) 0).map Ext.toRField := by
+  unfold refFields processed
+  cases hd : a.dir with
+  | lsb =>
+    exact refFields_lsb_walk _ _ a.items 0
+  | msb =>
+    have h := refFields_msb_walk (bitSize a) (starWidth a) a.items 0 (by omega)
+    rw [hT] at h
+    simp only [Nat.sub_self, Nat.sub_zero] at h
+    have hb : (Dir.msb == Dir.lsb) = false := by decide
+    rw [hb]; exact h
+
+/-! ## what `GrammarOK` provides, in processing order -/
+
+/-- `=sym(n)` fits, item at offset `off` in processing order. -/
+def ovlOK (go : Bool) (N off : Nat) : Item → Prop
+  | .field .ovl _ (.len n) => if go then n ≤ off else off + n ≤ N
+  | .field .ovl _ .star => False
+  | _ => True
+
+def ovlP (go : Bool) (N sw : Nat) : List Item → Nat → Prop
+  | [], _ => True
+  | it :: rest, off => ovlOK go N off it ∧ ovlP go N sw rest (off + it.widthE sw)
+
+theorem ovlP_append (go : Bool) (N sw : Nat) (l1 l2 : List Item) (off : Nat) :
+    ovlP go N sw (l1 ++ l2) off ↔ ovlP go N sw l1 off ∧ ovlP go N sw l2 (off + sumE sw l1) := by
+  induction l1 generalizing off with
+  | nil => simp [ovlP, sumE]
+  | cons it rest ih => simp only [List.cons_append, ovlP, ih, sumE, and_assoc, Nat.add_assoc]
+
+theorem ovlFits_cons (it : Item) (p : Nat) (rest : List (Item × Nat))
+    (h : ovlFits ((it, p) :: rest) = true) :
+    (∀ s n, it = .field .ovl s (.len n) → n ≤ p) ∧ (∀ s, it ≠ .field .ovl s .star) ∧
+      ovlFits rest = true := by
+  cases it with
+  | field opt sym loc =>
+    cases opt <;> cases loc <;> simp_all [ovlFits]
+  | _ => simp_all [ovlFits]
+
+theorem ovlP_lsb (N sw : Nat) : ∀ (ws : List Item) (p : Nat),
+    ovlFits (prefixWidths sw ws p) = true → ovlP true N sw ws p
+  | [], _, _ => trivial
+  | it :: rest, p, h => by
+    rw [prefixWidths] at h
+    obtain ⟨h1, h2, h3⟩ := ovlFits_cons _ _ _ h
+    refine ⟨?_, ovlP_lsb N sw rest _ h3⟩
+    cases it with
+    | field opt sym loc =>
+      cases opt <;> cases loc <;> simp_all [ovlOK]
+    | _ => trivial
+
+theorem ovlP_msb (T sw : Nat) : ∀ (ws : List Item) (p : Nat), p + sumE sw ws ≤ T →
+    ovlFits (prefixWidths sw ws p) = true → ovlP false T sw ws.reverse (T - p - sumE sw ws)
+  | [], _, _, _ => trivial
+  | it :: rest, p, hT, h => by
+    rw [prefixWidths] at h
+    simp only [sumE] at hT
+    obtain ⟨h1, h2, h3⟩ := ovlFits_cons _ _ _ h
+    have ih := ovlP_msb T sw rest (p + it.widthE sw) (by omega) h3
+    rw [List.reverse_cons, ovlP_append, sumE_reverse]
+    refine ⟨?_, ?_, trivial⟩
+    · simp only [sumE]
+      have : T - p - (it.widthE sw + sumE sw rest) = T - (p + it.widthE sw) - sumE sw rest := by
+        omega
+      rw [this]; exact ih
+    · simp only [sumE]
+      cases it with
+      | field opt sym loc =>
+        cases opt <;> cases loc <;> simp_all [ovlOK, Item.widthE, Item.isStar, Item.width]
+        omega
+      | _ => trivial
+
+/-- no extractor created so far is redefined by a later directive. -/
+def Fresh (exts : List Ext) (l : List Item) : Prop :=
+  ∀ e ∈ exts, ∀ o s loc, Item.field o s loc ∈ l → ¬ ((o == Opt.attr) = e.toAttr ∧ s = e.sym)
+
+theorem Fresh_tail {exts : List Ext} {d : Item} {l : List Item} (h : Fresh exts (d :: l)) :
+    Fresh exts l :=
+  fun e he o s loc hm => h e he o s loc (List.mem_cons_of_mem _ hm)
+
+theorem noDupSyms_field {kA kF : List String} {opt : Opt} {sym : String} {loc : Loc}
+    {rest : List Item} (h : noDupSyms kA kF (.field opt sym loc :: rest) = true) :
+    (if opt == .attr then kA.contains sym else kF.contains sym) = false ∧
+    (∀ o s loc', Item.field o s loc' ∈ rest → ¬ ((o == Opt.attr) = (opt == Opt.attr) ∧ s = sym)) ∧
+    noDupSyms kA kF rest = true := by
+  unfold noDupSyms at h
+  by_cases ha : (opt == Opt.attr) = true
+  · simp only [ha, if_true, Bool.and_eq_true, Bool.not_eq_true', List.all_eq_true] at h ⊢
+    refine ⟨h.1.1, ?_, h.2⟩
+    intro o s loc' hm hc
+    have := h.1.2 _ hm
+    simp [hc.1, hc.2] at this
+  · simp only [ha, Bool.false_eq_true, if_false, Bool.and_eq_true, Bool.not_eq_true',
+      List.all_eq_true] at h ⊢
+    simp only [Bool.not_eq_true] at ha
+    refine ⟨h.1.1, ?_, h.2⟩
+    intro o s loc' hm hc
+    have := h.1.2 _ hm
+    simp [hc.2] at this
+    simp [this] at hc
+
+theorem noDupSyms_tail {kA kF : List String} {d : Item} {rest : List Item}
+    (h : noDupSyms kA kF (d :: rest) = true) : noDupSyms kA kF rest = true := by
+  cases d with
+  | field opt sym loc => exact (noDupSyms_field h).2.2
+  | _ => simpa [noDupSyms] using h
+
+theorem widthE_len {opt : Opt} (h : (opt == Opt.ovl) = false) (sw : Nat) (sym : String) (n : Nat) :
+    (Item.field opt sym (.len n)).widthE sw = n := by
+  cases opt <;> first | rfl | simp at h
+
+theorem widthE_star (opt : Opt) (sw : Nat) (sym : String) :
+    (Item.field opt sym .star).widthE sw = sw := by
+  cases opt <;> rfl
+
+theorem cl_len {opt : Opt} (h : (opt == Opt.ovl) = false) (sw : Nat) (sym : String) (n : Nat) :
+    cl sw (Item.field opt sym (.len n)) = List.replicate n .free := by
+  cases opt <;> first | rfl | simp at h
+
+theorem cl_star (opt : Opt) (sw : Nat) (sym : String) :
+    cl sw (Item.field opt sym .star) = List.replicate sw .free := by
+  cases opt <;> rfl
+
+theorem cellsFix_append_free (cs : List Cell) (n : Nat) :
+    cellsFix (cs ++ List.replicate n .free) = cellsFix cs := by
+  rw [cellsFix_append, cellsFix_replicate_free]; omega
+
+theorem cellsMask_append_free (cs : List Cell) (n : Nat) :
+    cellsMask (cs ++ List.replicate n .free) = cellsMask cs := by
+  rw [cellsMask_append, cellsMask_replicate_free]; omega
+
+/-- the `clash` test of `bstep` does not fire. -/
+theorem clash_false {kA kF : List String} {opt : Opt} {sym : String} {loc : Loc}
+    {rest : List Item} {exts : List Ext}
+    (hk : (if opt == .attr then kA.contains sym else kF.contains sym) = false)
+    (hfr : Fresh exts (.field opt sym loc :: rest)) :
+    (if (opt == Opt.attr) = true then
+        kA.contains sym || exts.any (fun e => e.toAttr && e.sym == sym)
+      else kF.contains sym || exts.any (fun e => !e.toAttr && e.sym == sym)) = false := by
+  by_cases ha : (opt == Opt.attr) = true
+  · simp only [ha, if_true] at hk ⊢
+    rw [hk, Bool.false_or, List.any_eq_false]
+    intro e he hc
+    simp only [Bool.and_eq_true, beq_iff_eq] at hc
+    exact hfr e he opt sym loc (List.mem_cons_self ..) ⟨by rw [ha, hc.1], hc.2.symm⟩
+  · simp only [ha, Bool.false_eq_true, if_false] at hk ⊢
+    simp only [Bool.not_eq_true] at ha
+    rw [hk, Bool.false_or, List.any_eq_false]
+    intro e he hc
+    simp only [Bool.and_eq_true, beq_iff_eq, Bool.not_eq_true'] at hc
+    exact hfr e he opt sym loc (List.mem_cons_self ..) ⟨by rw [ha, hc.1], hc.2.symm⟩
+
+theorem bloop_inv (N : Nat) (go : Bool) (kA kF : List String) (sw : Nat) :
+    ∀ (l : List Item) (st : BState) (cs : List Cell),
+      starLast l = true → st.i + sumE sw l = N → st.count = st.i → cs.length = st.i →
+      st.fix = cellsFix cs → st.mask = cellsMask cs →
+      noDupSyms kA kF l = true → Fresh st.exts l → ovlP go N sw l st.i →
+      ∃ st', bloop N go kA kF st l = .ok st' ∧ st'.count = N ∧
+        st'.fix = cellsFix (cs ++ l.flatMap (cl sw)) ∧
+        st'.mask = cellsMask (cs ++ l.flatMap (cl sw)) ∧
+        st'.exts = (walkX go sw l st.i).reverse ++ st.exts
+  | [], st, cs, _, hsum, hcnt, _, hfix, hmask, _, _, _ =>
+    ⟨st, rfl, by simp only [sumE] at hsum; omega, by simpa using hfix, by simpa using hmask,
+      by simp [walkX]⟩
+  | d :: rest, st, cs, hsl, hsum, hcnt, hlen, hfix, hmask, hnd, hfr, hov => by
+    have hsl' := starLast_tail hsl
+    have hnd' := noDupSyms_tail hnd
+    have hfr' := Fresh_tail hfr
+    obtain ⟨hov1, hov2⟩ := hov
+    simp only [sumE] at hsum
+    have hfl : st.fix < 2 ^ st.i := by rw [hfix, ← hlen]; exact cellsFix_lt cs
+    have hml : st.mask < 2 ^ st.i := by rw [hmask, ← hlen]; exact cellsMask_lt cs
+    cases d with
+    | skip =>
+      have hw : Item.skip.widthE sw = 1 := rfl
+      rw [hw] at hsum hov2
+      have hlt : st.i < N := by omega
+      obtain ⟨st', h1, h2, h3, h4, h5⟩ :=
+        bloop_inv N go kA kF sw rest { st with i := st.i + 1, count := st.count + 1 }
+          (cs ++ [.free]) hsl' (by simp only; omega) (by simp only; omega)
+          (by simp only [List.length_append, List.length_singleton]; omega)
+          (by simp [cellsFix_append, cellsFix, hfix]) (by simp [cellsMask_append, cellsMask, hmask])
+          hnd' hfr' hov2
+      refine ⟨st', ?_, h2, ?_, ?_, ?_⟩
+      · simp only [bloop, bstep, hlt, if_true]; exact h1
+      · simpa [cl, Item.isStar, Item.cellsLsb] using h3
+      · simpa [cl, Item.isStar, Item.cellsLsb] using h4
+      · simpa [walkX, extOf, hw] using h5
+    | bit b =>
+      have hw : (Item.bit b).widthE sw = 1 := rfl
+      rw [hw] at hsum hov2
+      have hlt : st.i < N := by omega
+      obtain ⟨st', h1, h2, h3, h4, h5⟩ :=
+        bloop_inv N go kA kF sw rest
+          { st with fix := st.fix ||| ((if b then 1 else 0) <<< st.i),
+                    mask := st.mask ||| (1 <<< st.i), i := st.i + 1, count := st.count + 1 }
+          (cs ++ [if b then Cell.one else Cell.zero]) hsl' (by simp only; omega) (by simp only; omega)
+          (by simp only [List.length_append, List.length_singleton]; omega)
+          (by show st.fix ||| _ = _
+              rw [lor_shiftLeft_of_lt hfl, cellsFix_append, hlen, hfix]
+              cases b <;> simp [cellsFix])
+          (by show st.mask ||| _ = _
+              rw [lor_shiftLeft_of_lt hml, cellsMask_append, hlen, hmask]
+              cases b <;> simp [cellsMask])
+          hnd' hfr' hov2
+      refine ⟨st', ?_, h2, ?_, ?_, ?_⟩
+      · simp only [bloop, bstep, hlt, if_true]; exact h1
+      · cases b <;> simpa [cl, Item.isStar, Item.cellsLsb] using h3
+      · cases b <;> simpa [cl, Item.isStar, Item.cellsLsb] using h4
+      · simpa [walkX, extOf, hw] using h5
+    | byte v =>
+      have hw : (Item.byte v).widthE sw = 8 := rfl
+      rw [hw] at hsum hov2
+      have hle : st.i + 8 ≤ N := by omega
+      have hcl : cl sw (Item.byte v) = byteCells v 8 := rfl
+      obtain ⟨st', h1, h2, h3, h4, h5⟩ :=
+        bloop_inv N go kA kF sw rest
+          { st with fix := st.fix ||| ((v % 256) <<< st.i),
+                    mask := st.mask ||| (255 <<< st.i), i := st.i + 8, count := st.count + 8 }
+          (cs ++ byteCells v 8) hsl' (by simp only; omega) (by simp only; omega)
+          (by simp only [List.length_append, byteCells_length]; omega)
+          (by show st.fix ||| _ = _
+              rw [lor_shiftLeft_of_lt hfl, cellsFix_append, hlen, hfix, cellsFix_byteCells])
+          (by show st.mask ||| _ = _
+              rw [lor_shiftLeft_of_lt hml, cellsMask_append, hlen, hmask, cellsMask_byteCells])
+          hnd' hfr' hov2
+      refine ⟨st', ?_, h2, ?_, ?_, ?_⟩
+      · simp only [bloop, bstep, hle, if_true]; exact h1
+      · simpa [hcl] using h3
+      · simpa [hcl] using h4
+      · simpa [walkX, extOf, hw] using h5
+    | field opt sym loc =>
+      obtain ⟨hk, hrest, _⟩ := noDupSyms_field hnd
+      have hclash := clash_false hk hfr
+      have hfr2 : ∀ k sta sto, Fresh (⟨opt == .attr, sym, k, sta, sto, go⟩ :: st.exts) rest := by
+        intro k sta sto e he o s loc' hm
+        rcases List.mem_cons.1 he with rfl | he
+        · exact fun hc => hrest o s loc' hm ⟨hc.1, hc.2⟩
+        · exact hfr' e he o s loc' hm
+      cases loc with
+      | len n =>
+        by_cases ho : (opt == Opt.ovl) = true
+        · have ho' : opt = Opt.ovl := by simpa using ho
+          subst ho'
+          have hw : (Item.field Opt.ovl sym (.len n)).widthE sw = 0 := rfl
+          have hcl : cl sw (Item.field Opt.ovl sym (.len n)) = [] := rfl
+          rw [hw] at hsum hov2
+          cases go with
+          | true =>
+            have hb : n ≤ st.i := by simpa [ovlOK] using hov1
+            obtain ⟨st', h1, h2, h3, h4, h5⟩ :=
+              bloop_inv N true kA kF sw rest
+                { st with exts := ⟨Opt.ovl == .attr, sym, kindOf .ovl, st.i - n, some st.i, true⟩ :: st.exts }
+                cs hsl' (by simp only; omega) hcnt hlen hfix hmask hnd' (hfr2 _ _ _) hov2
+            refine ⟨st', ?_, h2, ?_, ?_, ?_⟩
+            · simp only [bloop, bstep, hclash, hb, if_true]; exact h1
+            · simpa [hcl] using h3
+            · simpa [hcl] using h4
+            · simpa [walkX, extOf, hw] using h5
+          | false =>
+            have hb : st.i + n ≤ N := by simpa [ovlOK] using hov1
+            obtain ⟨st', h1, h2, h3, h4, h5⟩ :=
+              bloop_inv N false kA kF sw rest
+                { st with exts := ⟨Opt.ovl == .attr, sym, kindOf .ovl, st.i, some (st.i + n), false⟩ :: st.exts }
+                cs hsl' (by simp only; omega) hcnt hlen hfix hmask hnd' (hfr2 _ _ _) hov2
+            refine ⟨st', ?_, h2, ?_, ?_, ?_⟩
+            · simp only [bloop, bstep, hclash, hb, if_true]; exact h1
+            · simpa [hcl] using h3
+            · simpa [hcl] using h4
+            · simpa [walkX, extOf, hw] using h5
+        · simp only [Bool.not_eq_true] at ho
+          have hw := widthE_len ho sw sym n
+          have hcl := cl_len ho sw sym n
+          rw [hw] at hsum hov2
+          have hb : st.i + n ≤ N := by omega
+          obtain ⟨st', h1, h2, h3, h4, h5⟩ :=
+            bloop_inv N go kA kF sw rest
+              { st with exts := ⟨opt == .attr, sym, kindOf opt, st.i, some (st.i + n), go⟩ :: st.exts,
+                        i := st.i + n, count := st.count + n }
+              (cs ++ List.replicate n .free) hsl' (by simp only; omega) (by simp only; omega)
+              (by simp only [List.length_append, List.length_replicate]; omega)
+              (by simpa [cellsFix_append_free] using hfix) (by simpa [cellsMask_append_free] using hmask)
+              hnd' (hfr2 _ _ _) hov2
+          refine ⟨st', ?_, h2, ?_, ?_, ?_⟩
+          · simp only [bloop, bstep, hclash, ho, hb, if_true]; exact h1
+          · simpa [hcl] using h3
+          · simpa [hcl] using h4
+          · simpa [walkX, extOf, hw, ho] using h5
+      | star =>
+        have ho : (opt == Opt.ovl) = false := by
+          cases opt <;> first | rfl | exact absurd hov1 (by simp [ovlOK])
+        have hr : rest = [] := starLast_head hsl (by cases opt <;> rfl)
+        subst hr
+        have hw := widthE_star opt sw sym
+        have hcl := cl_star opt sw sym
+        rw [hw] at hsum hov2
+        simp only [sumE] at hsum
+        have hb : st.i ≤ N := by omega
+        obtain ⟨st', h1, h2, h3, h4, h5⟩ :=
+          bloop_inv N go kA kF sw []
+            { st with exts := ⟨opt == .attr, sym, kindOf opt, st.i, none, go⟩ :: st.exts,
+                      i := N, count := if st.count < N then N else st.count }
+            (cs ++ List.replicate sw .free) hsl' (by simp only [sumE]; omega)
+            (by simp only; split <;> omega)
+            (by simp only [List.length_append, List.length_replicate]; omega)
+            (by simpa [cellsFix_append_free] using hfix) (by simpa [cellsMask_append_free] using hmask)
+            hnd' (hfr2 _ _ _) trivial
+        refine ⟨st', ?_, h2, ?_, ?_, ?_⟩
+        · simp only [bloop, bstep, hclash, ho, hb, if_true]; exact h1
+        · simpa [hcl] using h3
+        · simpa [hcl] using h4
+        · simpa [walkX, extOf, hw] using h5
+
+/-! ## conclusion -/
+
+theorem sumE_processed (sw : Nat) (a : Ast) : sumE sw (processed a) = sumE sw a.items := by
+  unfold processed
+  cases a.dir with
+  | msb => exact sumE_reverse sw a.items
+  | lsb => rfl
+
+/-- under `GrammarOK` the effective widths add up to the bit size. -/
+theorem sumE_total (a : Ast)
+    (hsl : starLast (processed a) = true)
+    (hsz : (match a.size with
+      | some n => if (processed a).any Item.isStar then decide (sumWidth a.items ≤ n)
+                  else sumWidth a.items == n
+      | none => true) = true) :
+    sumE (starWidth a) (processed a) = bitSize a := by
+  have h1 := sumE_starLast (starWidth a) (processed a) hsl
+  have h2 : sumE 0 (processed a) = sumWidth a.items := by
+    rw [sumE_processed, sumWidth_eq_sumE]
+  rw [h1, h2]
+  cases hs : a.size with
+  | none =>
+    have hb : bitSize a = starSize (processed a) := by unfold bitSize; rw [hs]
+    have hw : starWidth a = 0 := by unfold starWidth; rw [hs]
+    rw [hb, hw, starSize_starLast _ hsl, h2]
+    split <;> rfl
+  | some n =>
+    have hb : bitSize a = n := by unfold bitSize; rw [hs]
+    have hw : starWidth a = n - sumWidth a.items := by unfold starWidth; rw [hs]; rfl
+    rw [hb, hw]
+    rw [hs] at hsz
+    simp only at hsz
+    split at hsz
+    · next hst => rw [if_pos hst]; simp at hsz; omega
+    · next hst => rw [if_neg hst]; simp at hsz; omega
+
+theorem ovlP_processed (a : Ast) (hT : sumE (starWidth a) a.items = bitSize a)
+    (hov : ovlFits (prefixWidths (starWidth a) a.items 0) = true) :
+    ovlP (a.dir == .lsb) (bitSize a) (starWidth a) (processed a) 0 := by
+  unfold processed
+  cases hd : a.dir with
+  | lsb => exact ovlP_lsb _ _ a.items 0 hov
+  | msb =>
+    have h := ovlP_msb (bitSize a) (starWidth a) a.items 0 (by omega) hov
+    rw [hT] at h
+    simp only [Nat.sub_self, Nat.sub_zero] at h
+    have hb : (Dir.msb == Dir.lsb) = false := by decide
+    rw [hb]; exact h
+
+/-- **C03, central theorem**: for every format the grammar admits, `buildspec` as coded
+    computes the documented meaning. -/
+theorem buildspec_meaning_proof (a : Ast) (keysA keysF : List String)
+    (hok : GrammarOK a keysA keysF = true) :
+    ∃ s, buildspec a keysA keysF = .ok s ∧
+      s.fixSize = bitSize a ∧
+      s.fix = cellsFix (refCells a) ∧ s.mask = cellsMask (refCells a) ∧
+      s.exts.map Ext.toRField = refFields a ∧
+      s.size = a.size.getD 0 ∧ s.pfx = a.pfx ∧ s.xdata = a.xdata := by
+  simp only [GrammarOK, Bool.and_eq_true] at hok
+  obtain ⟨⟨⟨⟨hsl, _⟩, hnd⟩, hov⟩, hsz⟩ := hok
+  have hT := sumE_total a hsl hsz
+  have hT' : sumE (starWidth a) a.items = bitSize a := by rw [← sumE_processed]; exact hT
+  obtain ⟨st, h1, h2, h3, h4, h5⟩ :=
+    bloop_inv (bitSize a) (a.dir == .lsb) keysA keysF (starWidth a) (processed a) {} []
+      hsl (by simpa using hT) rfl rfl rfl rfl hnd
+      (fun e he => by cases he) (ovlP_processed a hT' hov)
+  have hne : (st.count != bitSize a) = false := by simp [h2]
+  refine ⟨{ size := a.size.getD 0, fixSize := bitSize a, fix := st.fix, mask := st.mask,
+            pfx := a.pfx, xdata := a.xdata, exts := st.exts.reverse }, ?_, rfl, ?_, ?_, ?_, rfl, rfl, rfl⟩
+  · simp only [buildspec, h1, hne]
+    rfl
+  · simpa [refCells_processed] using h3
+  · simpa [refCells_processed] using h4
+  · simp only [h5, List.append_nil, List.reverse_reverse]
+    exact (refFields_processed a hT').symm
 
 end Amoco.Spec
